@@ -1051,6 +1051,13 @@ class Prims:
                 return list(obj.keys())
             if attr == "values":
                 return list(obj.values())
+            if attr == "update":
+                newd = dict(obj)
+                for a_ in args:
+                    newd.update(a_)
+                newd.update(kwargs)
+                self.rebind(ex, st, obj, newd, node)
+                return None
         if isinstance(obj, (GhostSet, GhostMap, Record)):
             return obj.method(ex, st, attr, args, kwargs, node, self)
         raise Unsupported(f"method {attr!r} of {type(obj).__name__} at line {node.lineno}")
@@ -1061,6 +1068,13 @@ class Prims:
         for k, v in list(st.vars.items()):
             if v is old:
                 st.vars[k] = new
+                hit = True
+            elif isinstance(v, dict) and any(x is old for x in v.values()):
+                # the mutated object is a value of a dict bound to a variable (results["intermediates"].append(...))
+                st.vars[k] = {kk: (new if x is old else x) for kk, x in v.items()}
+                hit = True
+            elif isinstance(v, list) and any(x is old for x in v):
+                st.vars[k] = [new if x is old else x for x in v]
                 hit = True
         if not hit:
             raise Unsupported(f"mutation of an object not bound to a variable (line {node.lineno})")
@@ -1104,6 +1118,7 @@ class Prims:
         R("math.prod", self.m_prod)
         R("typing.cast", lambda ex, st, a, k, n: a[1])  # dropped by extraction: cast(T, x) -> x
         R("numpy.concatenate", lambda ex, st, a, k, n: seq_concat(a[0][0], a[0][1]) if len(a[0]) == 2 else (_ for _ in ()).throw(Unsupported("concatenate of other than two arrays")))
+        R("builtins.callable", lambda ex, st, a, k, n: isinstance(a[0], (RepoFunc, Closure, PartialVal)) or hasattr(a[0], "pyvc_call") or (isinstance(a[0], ModRef)) or (isinstance(a[0], tuple) and a[0] and a[0][0] == "localfunc"))
         R("numpy.isnan", self.m_isnan)
         R("numpy.maximum.accumulate", self.m_running_max)
         R("numpy.nan_to_num", self.m_nan_to_num)
